@@ -131,8 +131,28 @@ def angles_case(draw):
 def body_angles(case):
     dreye = _dreye()
     Y = np.asarray(case["Y"], dtype=float)
-    with calling("spherical_to_cartesian"):
-        X = np.asarray(dreye.spherical_to_cartesian(Y))
+    # argument form derived from the case: float array, list, or whole-number coordinates (radius >= 1, angles 1..3 / 1..6 rad) as integers
+    form = (None, None, "list", "int")[int(abs(float(Y.sum())) * 1e6) % 4]
+    if form == "int":
+        Y = np.round(Y)
+        Y[:, 0] = np.maximum(Y[:, 0], 1.0)
+        Y[:, 1:-1] = np.clip(Y[:, 1:-1], 1.0, 3.0)
+        Y[:, -1] = np.clip(Y[:, -1], 1.0, 6.0)
+    Y0 = Y.copy()
+    with calling(f"spherical_to_cartesian (argument as {form or 'float array'})"):
+        X = np.asarray(dreye.spherical_to_cartesian(gens.as_form(Y, form) if form else Y))
+    check(np.array_equal(Y, Y0), "angles:input-modified", "input modified")
+    check(X.shape == Y.shape, "angles:shape", f"{X.shape}")
+    # textbook n-sphere formula, point by point: x_k = r sin(a_1) .. sin(a_k) cos(a_{k+1}), last coordinate all sines
+    for yrow, xrow in zip(Y.tolist(), X.tolist()):
+        rr, ang = yrow[0], yrow[1:]
+        expect, pref = [], rr
+        for a in ang:
+            expect.append(pref * math.cos(a))
+            pref *= math.sin(a)
+        expect.append(pref)
+        check(all(abs(e - x) <= 1e-12 * rr for e, x in zip(expect, xrow)), "angles:formula",
+              f"spherical_to_cartesian({yrow}) = {xrow}, the n-sphere formula gives {expect} (argument as {form or 'float array'})")
     with calling("cartesian_to_spherical"):
         with np.errstate(all="ignore"):
             Yb = np.asarray(dreye.cartesian_to_spherical(X))
@@ -146,7 +166,7 @@ def body_angles(case):
     if not np.all(err <= tol_a):
         k = int(np.argmax(err.max(axis=1)))
         raise Violation("angles:roundtrip", f"Y={Y[k].tolist()} -> X={X[k].tolist()} -> {Yb[k].tolist()} (tol {tol_a:.2g})")
-    labs = [f"d{Y.shape[1]}"]
+    labs = [f"d{Y.shape[1]}", f"form:{form or 'array'}"]
     labs.append("nt:generic-angles" if Y.shape[1] >= 3 else "nt:2d")
     return labs
 
